@@ -103,6 +103,9 @@ type sendPingOpts struct { //nolint:maligned
 	dst netip.Addr
 	// Send to peer.
 	peer netip.Addr
+	// Send a multicast message (dst is the router address) via the link to
+	// this peer only, instead of all links.
+	viaPeer netip.Addr
 	// Use message type.
 	msgType frame.MessageType
 	// Define ping ID to use.
@@ -217,6 +220,14 @@ func (r *Router) sendPingMsg(opts sendPingOpts) error {
 
 	// Send frame on all links.
 	if f.DstIP() == m.RouterAddress {
+		// Unless it is only meant for the link to one peer.
+		if opts.viaPeer.IsValid() {
+			if err := r.instance.Switch().ForwardByPeer(f, opts.viaPeer); err != nil {
+				return fmt.Errorf("send ping frame to %s: %w", opts.viaPeer, err)
+			}
+			return nil
+		}
+
 		links := r.instance.Peering().GetLinks()
 		for i, link := range links {
 			// Clone frame for all but last link.
